@@ -2,6 +2,7 @@ import GapicModel.Model.Whitespace
 import GapicModel.Model.Wrap
 import GapicModel.Lemmas.RegexSound
 import GapicModel.Lemmas.WsRegex
+import GapicModel.Pinned.Funcs
 /-
 C20 — whitespace clean-up never changes code meaning (fix_whitespace part).
 Property theorems at the end; `section Aux` holds lemmas specific to them.  No Mathlib.
@@ -551,5 +552,49 @@ theorem wrap_tab_regression :
 
 open GapicModel.Model.Wrap in
 example : rstTail ['a', '"', '"', '"', 'b', '\\'] 4 none = ['a', '\'', '\'', '\'', 'b', '\\', '.'] := by decide
+
+/-! ## The hand-written list-marker helpers ARE the code's current functions
+`Pinned.Funcs.*` are the Lean translations of `gapic/utils/lines.py: is_list_item` and
+`get_subsequent_line_indentation_level` produced by harness/pyfun2lean.py; `Bridge.Funcs.*` re-proves on every run that
+translating /repo's current source gives the same definitions. -/
+
+section Translated
+open GapicModel.PyRt
+
+theorem take2_eq_prefix (s : List Char) (a b : Char) : (s.take 2 == [a, b]) = [a, b].isPrefixOf s := by
+  rcases s with _ | ⟨x, _ | ⟨y, t⟩⟩
+  · simp [List.isPrefixOf]
+  · simp [List.isPrefixOf]
+  · simp only [List.take, List.isPrefixOf, Bool.and_true]
+    rw [Bool.eq_iff_iff]
+    simp only [List.cons.injEq, and_true, beq_iff_eq, Bool.and_eq_true]
+    constructor <;> rintro ⟨rfl, rfl⟩ <;> exact ⟨rfl, rfl⟩
+
+theorem slice02 (s : List Char) : slice s (some 0) (some 2) = s.take 2 := by
+  rcases s with _ | ⟨x, _ | ⟨y, t⟩⟩ <;> simp [slice, normIdx]
+
+theorem numbered_eq (s : List Char) :
+    GapicModel.Model.Wrap.numberedList Pinned.classTables s =
+      reMatch (.seq .bol (.seq (.seq (.cls false [.digit]) (.star (.cls false [.digit]) true)) (.seq (.chr '.') (.chr ' ')))) s := rfl
+
+theorem isListItem_is_translated (s : List Char) :
+    GapicModel.Model.Wrap.isListItem Pinned.classTables s = Pinned.Funcs.is_list_item s := by
+  simp only [GapicModel.Model.Wrap.isListItem, Pinned.Funcs.is_list_item, numbered_eq, len, startswith, take2_eq_prefix]
+  by_cases h : s.length < 3
+  · have : ((s.length : Int) < 3) := by omega
+    simp [h, this]
+  · have : ¬ ((s.length : Int) < 3) := by omega
+    simp [h, this]
+
+theorem subsequentLevel_is_translated (s : List Char) :
+    (GapicModel.Model.Wrap.subsequentLevel Pinned.classTables s : Int) = Pinned.Funcs.get_subsequent_line_indentation_level s := by
+  simp only [GapicModel.Model.Wrap.subsequentLevel, Pinned.Funcs.get_subsequent_line_indentation_level, numbered_eq,
+    len, strIn, slice02]
+  by_cases hn : reMatch (.seq .bol (.seq (.seq (.cls false [.digit]) (.star (.cls false [.digit]) true)) (.seq (.chr '.') (.chr ' ')))) s = true <;>
+  by_cases h2 : s.length ≥ 2 <;> by_cases h4 : s.length ≥ 4 <;>
+    by_cases hp : (s.take 2 == ['-', ' '] || s.take 2 == ['+', ' ']) = true <;>
+    simp_all <;> (repeat' split) <;> omega
+
+end Translated
 
 end GapicModel.Props.C20
